@@ -74,6 +74,38 @@ class TapeModule:
     def shuffle(self, x):
         self.log.append(("shuffle", len(x)))
 
+    # -- functions Random does not use today; scripted so that a library that starts to use them is
+    # still observed (boundary outcomes of each contract) instead of stopping the harness
+    def randrange(self, start, stop=None, step=1):
+        if stop is None:
+            start, stop = 0, start
+        start, stop, step = operator.index(start), operator.index(stop), operator.index(step)
+        n = len(range(start, stop, step))
+        if n == 0:
+            raise ValueError("empty range for randrange()")
+        return start + step * (self.randint(0, n - 1))
+
+    def random(self):
+        sel = self._sel()
+        r = {"lo": 0.0, "hi": 1.0 - 2.0 ** -53, "lo1": 0.25, "hi1": 0.75}.get(sel, 0.5)
+        self.log.append(("random", r))
+        return r
+
+    def getrandbits(self, k):
+        return self.randint(0, (1 << k) - 1) if k > 0 else 0
+
+    def randbytes(self, n):
+        return bytes(self.randint(0, 255) for _ in range(n))
+
+    def sample(self, population, k):
+        pool = list(population)
+        if not 0 <= k <= len(pool):
+            raise ValueError("Sample larger than population or is negative")
+        return [pool.pop(self.randint(0, len(pool) - 1)) for _ in range(k)]
+
+    def choices(self, population, weights=None, *, cum_weights=None, k=1):
+        return [self.choice(population) for _ in range(k)]
+
 
 @contextlib.contextmanager
 def installed(tape):
